@@ -8,11 +8,13 @@ def H(name, desc): return Harness(name, "./circuit", OV, expect_reach=["end"], d
 if tier == "quick":
     hs = [H("verifC01Step16w3", "one garbling step, AES-128 key, 3 wires (all 27 wirings x 5 gate types)"),
           H("verifC01Step24w2", "one garbling step, AES-192 key, 2 wires"),
-          H("verifC01Step32w2", "one garbling step, AES-256 key, 2 wires")]
+          H("verifC01Step32w2", "one garbling step, AES-256 key, 2 wires"),
+          H("verifC01Pair", "two consecutive gates (0,1)->2 and (x,y)->3, all 25 gate-type pairs, x,y in {0,1,2}: shared tweak counter, per-gate tables, evaluator state carried across gates")]
 else:
     hs = [H("verifC01Step16", "one garbling step, AES-128 key, 4 wires (all 64 wirings x 5 gate types)"),
           H("verifC01Step24", "one garbling step, AES-192 key, 4 wires"),
-          H("verifC01Step32", "one garbling step, AES-256 key, 4 wires")]
+          H("verifC01Step32", "one garbling step, AES-256 key, 4 wires"),
+          H("verifC01Pair", "two consecutive gates (0,1)->2 and (x,y)->3, all 25 gate-type pairs, x,y in {0,1,2}: shared tweak counter, per-gate tables, evaluator state carried across gates")]
 sys.exit(run_property(
     "C01", tier, hs, "other",
     "Bounded symbolic execution of the real garbleInto / Eval / BitFromLabel / LabelForBit code (go/ssa of /repo, "
@@ -23,6 +25,6 @@ sys.exit(run_property(
      "wire-label invariant L1 = L0 xor R with S(R)=1 is assumed for gate inputs and re-proved for the gate output (inductive step)",
      "tweak counter starts at 0 in the single-gate step (Eval has no way to start elsewhere); drift across gates is covered by the per-gate advance assertions",
      "Go int is 64 bit; stdlib read by the engine is go1.25.0's source"],
-    ["circuits as a whole (only the per-gate inductive step is decided; composition over many gates follows from the re-established invariant and equal tweak advance)",
+    ["circuits of more than two gates (the per-gate inductive step and all two-gate sequences are decided; longer compositions follow from the re-established invariant and equal tweak advance)",
      "Circuit.Compute on big.Int inputs/outputs", "termination and memory of huge circuits", "the AES implementation (aesni assembly)"],
     uses_uf=True, quick_deadline=900, thorough_deadline=3000))
